@@ -18,10 +18,6 @@ import (
 	"github.com/apache/arrow-go/v18/arrow/memory"
 )
 
-// epochUTC is the Unix epoch interpreted as UTC; used to derive Arrow
-// date32 / time64 / timestamp values from Go time.Time.
-var epochUTC = time.Date(1970, 1, 1, 0, 0, 0, 0, time.UTC)
-
 // asTime converts value to a time.Time, accepting either a plain time.Time
 // or a named type whose underlying type is time.Time (so handlers can
 // declare a typed alias that implements AnnotatedReturn).
@@ -90,7 +86,15 @@ func asBytes(value any) ([]byte, bool) {
 // daysSinceEpoch returns the number of full UTC days between t and the
 // Unix epoch — the Arrow date32 wire encoding.
 func daysSinceEpoch(t time.Time) int32 {
-	return int32(t.UTC().Sub(epochUTC) / (24 * time.Hour))
+	// From Unix seconds, floored: time.Time.Sub saturates ~292 years from the
+	// epoch (every later date would encode as the same day), and truncating
+	// toward zero would put a pre-1970 afternoon on the following day.
+	secs := t.UTC().Unix()
+	days := secs / 86400
+	if secs%86400 < 0 {
+		days--
+	}
+	return int32(days)
 }
 
 // microsSinceMidnight returns the wall-clock microsecond offset of t
